@@ -13,6 +13,7 @@
 //     the live node and through a real stop / NewChainService on the same data directory; oracle: a node that starts
 //     gives every existing block the version its header carries ("stable across restarts");
 //   - GetGenesisInfo on stores initialised by InitGenesisBlock with generated geneses.
+//
 // The operation lines are answered by the same Lean driver as harness c19 (model-c19).
 package main
 
@@ -59,10 +60,11 @@ func main() {
 	rng = run.Rng.Fork()
 	root := filepath.Join(run.Out, "w")
 	os.MkdirAll(root, 0o755)
+	scripted(root)
 	for i := 0; i < run.Pick(10, 80); i++ {
 		scenario(root, i)
 	}
-	genesisInfo(root)
+	genesisRoundTrips(root)
 	os.RemoveAll(root)
 }
 
@@ -161,6 +163,48 @@ func scenario(root string, idx int) {
 	readBack(n, hs1, chainOf, "first-life")
 	startupChecks(n, hs1, chainOf)
 	restarts(n, hs1, chainOf)
+}
+
+// scripted: the two upgrade paths of the audit as fixed scenarios through a real stop / NewChainService.
+//  1. a release that knows V2..V4 runs the chain up to block 6 (its stored record has no V5 key); the next release
+//     schedules V5 at height 5 <= best block;
+//  2. the stored record is not a JSON object of unsigned numbers; the next start moves V3 from 2 to 4 (blocks 2..3 exist).
+func scripted(root string) {
+	for k := 0; k < 2; k++ {
+		hs1 := []uint64{1, 2, 3, never}
+		if len(hfFields()) != 4 {
+			return
+		}
+		n := newCNode(root, mkCfg(hs1))
+		chainOf := []built{{blk: n.best(), id: n.best().BlockHash()}}
+		for no := 1; no <= 6; no++ {
+			b, ok := buildBlock(n, hs1, uint64(no))
+			if !ok {
+				n.close()
+				return
+			}
+			chainOf = append(chainOf, b)
+		}
+		var rec record
+		var hs2 []uint64
+		if k == 0 {
+			rec = recordOf("older-release", map[string]uint64{"V2": 1, "V3": 2, "V4": 3})
+			hs2 = []uint64{1, 2, 3, 5}
+		} else {
+			rec = record{kind: "unparsable", json: []byte(`{"V2":1,"V3":2,"V4":3,"V5":-1}`), bad: true}
+			hs2 = []uint64{1, 4, 5, never}
+		}
+		putRecord(n, rec)
+		n.close()
+		err := n.open(mkCfg(hs2))
+		run.Eval(fmt.Sprintf("scripted-restart %d", k), err == nil)
+		run.Count(fmt.Sprintf("scripted-restart-%d-started=%v", k, err == nil))
+		if err == nil {
+			judge("scripted: stop, NewChainService on the same data directory", hs1, hs2, rec, 6, chainOf, "scripted")
+		}
+		n.close()
+		os.RemoveAll(n.dir)
+	}
 }
 
 func cloneReceiptList(rs []*types.Receipt) []*types.Receipt {
@@ -374,8 +418,12 @@ func readBack(n *cnode, hs []uint64, chainOf []built, life string) string {
 			continue
 		}
 		run.Eval(fmt.Sprintf("readback %s %d %v", life, no, hs), true)
-		sb, err := n.cs.GetBlockByNo(types.BlockNo(no))
-		if err != nil || !bytes.Equal(sb.BlockHash(), b.id) {
+		var sb *types.Block
+		h, err := n.cs.GetHashByNo(types.BlockNo(no))
+		if err == nil {
+			sb, err = n.cs.GetBlock(h)
+		}
+		if err != nil || !bytes.Equal(h, b.id) || !bytes.Equal(sb.BlockHash(), b.id) {
 			fail("a connected block is not the block stored under its number", map[string]interface{}{"block_no": no})
 			continue
 		}
@@ -574,17 +622,20 @@ func randRecord(hs1 []uint64, best uint64) record {
 	switch rng.Intn(10) {
 	case 0, 1: // written by this release
 		return recordOf("same-release", m)
-	case 2, 3, 4: // written by an older release that did not know the last k versions
-		k := 1 + rng.Intn(2)
-		for i := len(fields) - k; i < len(fields); i++ {
-			if i >= 1 {
-				delete(m, fields[i])
+	case 2, 3, 4, 5: // written by an older release that did not know the last versions: only forks that were not active on this chain
+		// up to the best block can be absent from the record (the release that produced blocks of a version knew it)
+		dropped := 0
+		for i := len(fields) - 1; i >= 1 && hs1[i] > best; i-- {
+			delete(m, fields[i])
+			dropped++
+			if rng.Chance(1, 3) {
+				break
 			}
 		}
+		if dropped == 0 {
+			return recordOf("same-release", m)
+		}
 		return recordOf("older-release", m)
-	case 5: // some key missing
-		delete(m, fields[rng.Intn(len(fields))])
-		return recordOf("key-missing", m)
 	case 6: // written by a newer release
 		m[fmt.Sprintf("V%d", len(fields)+2+rng.Intn(2))] = []uint64{0, best, best + 1, never}[rng.Intn(4)]
 		return recordOf("newer-release", m)
@@ -817,7 +868,11 @@ func restarts(n *cnode, hs1 []uint64, chainOf []built) {
 			if cfgKind == "unchanged" && rec.kind == "same-release" {
 				run.Fail("a restart with the unchanged configuration is refused: "+err.Error(), map[string]interface{}{"heights": hs1, "best_block": best})
 			}
-			// refused: the operator goes back to the old configuration
+			// refused: the operator goes back to the old configuration (on a record the node itself wrote; a record the harness
+			// altered stays in the store of a node that refused to start, so the rounds of this node end there)
+			if rec.kind != "same-release" {
+				return
+			}
 			if err := n.open(mkCfg(hs1)); err != nil {
 				run.Fail("after a refused start the node does not start with its previous configuration either: "+err.Error(),
 					map[string]interface{}{"heights": hs1, "refused_heights": hs2, "stored_record": string(rec.json)})
@@ -842,18 +897,10 @@ func restarts(n *cnode, hs1 []uint64, chainOf []built) {
 			return
 		}
 		// versions changed (defect candidates): go back to the first configuration on the original record for the next round
-		putRecord(n, recordOf("same-release", map[string]uint64{}))
 		chain.VerifC19Store(n.cs).Delete(dbkey.HardFork())
 		n.close()
 		if err := n.open(mkCfg(hs1)); err != nil {
 			return
 		}
 	}
-}
-
-// ---------------------------------------------------------------- genesis
-
-func genesisInfo(root string) {
-	// placeholder, see genesis.go
-	genesisRoundTrips(root)
 }
